@@ -75,6 +75,17 @@ def gen(seed):
             faults.pop(str(readdress), None)
         steps.append(dict(kind=kind, tps=payload_tps, faults=faults, move=move, readdress=readdress,
                           fail_on_error=rng.random() < 0.5, group="g%d" % rng.randint(0, 2)))
+    if nb > 1 and rng.random() < 0.25:
+        # acks=0 towards several leaders, one of which cannot be reached: without replies the failed request is the
+        # only thing that tells the caller anything
+        tps = [(t, p) for t in topics for p in topics[t] if topics[t][p] != -1]
+        rng.shuffle(tps)
+        if tps:
+            victim = topics[tps[0][0]][tps[0][1]]
+            steps.insert(rng.randrange(len(steps) + 1), dict(
+                kind="produce0", tps=tps[:rng.randint(1, min(len(tps), 6))],
+                faults={str(victim): rng.choice(("refuse", "refuse", "silent"))}, move=None, readdress=None,
+                fail_on_error=rng.random() < 0.5, group="g0"))
     return dict(seed=seed, brokers=brokers, topics=topics, steps=steps, latency=rng.choice((0.0, 0.002, 0.02)),
                 chunk=rng.choice(("whole", "random", "coalesce")),
                 bootstrap_extra=rng.random() < 0.3)
@@ -118,6 +129,9 @@ def run_e2e(spec, res):
                 client.load_metadata_for_topics().addBoth(told.append)
                 w.run(until=w.clock.seconds() + 6.0, stop=lambda: bool(told))
                 step["_told"] = bool(told) and not isinstance(told[0], Failure)
+                # let the client learn that its old connection is gone (frames written into a connection the peer
+                # has already dropped vanish, which is TCP's doing and not a routing matter)
+                w.run(until=w.clock.seconds() + 6 * sc["latency"] + 0.01)
             for b, f in step["faults"].items():
                 b = int(b)
                 if f == "refuse":
